@@ -242,6 +242,8 @@ verus! {
 // R15 shims (trusted, one line each): byte order of u64::to_le_bytes / to_be_bytes
 #[verifier::external_body] pub fn u64_to_le_bytes(n: u64) -> (r: [u8; 8]) ensures r@ == crate::vspec::le64(n) { n.to_le_bytes() }
 #[verifier::external_body] pub fn u64_to_be_bytes(n: u64) -> (r: [u8; 8]) ensures r@ == crate::vspec::be64(n) { n.to_be_bytes() }
+// R5w: stand-in for rand_core::Error (the error of RngCore::try_fill_bytes)
+#[derive(Debug)] pub struct RandError;
 }
 }
 '''
@@ -260,7 +262,7 @@ def extract_wrappers(repo, root, which='default'):
         out.append(_wrap(m, _pub_fields(ex, _clean(ex, rd(m + '.rs'))), m + '.rs'))
     t = _clean(ex, rd('types.rs'))
     # R5w: in this unit Random keeps the one RngCore method the wrappers call
-    t = _sub(ex, 'R5w', r'pub trait Random: Send \+ Sync \{\}', 'pub trait Random: Send + Sync { fn fill_bytes(&mut self, dest: &mut [u8]); }', t, expect=1)
+    t = _sub(ex, 'R5w', r'pub trait Random: Send \+ Sync \{\}', 'pub trait Random: Send + Sync { fn fill_bytes(&mut self, dest: &mut [u8]); fn try_fill_bytes(&mut self, dest: &mut [u8]) -> Result<(), crate::wshim::RandError>; }', t, expect=1)
     out.append(_wrap('types', _pub_fields(ex, t), 'types.rs'))
     # params: only the *Choice enums are needed; keep the module as in the core unit minus patterns
     pm = _clean(ex, rd('params/mod.rs'))
@@ -294,7 +296,7 @@ def extract_wrappers(repo, root, which='default'):
         d = wrapper_file('ring')
         d = _sub(ex, 'R16-use', r'(?m)^use ring::', 'use crate::deps_ring::ring::', d, expect=1)
         d = _sub(ex, 'R5w', r'impl Random for RingRng \{\}',
-                 'impl Random for RingRng { #[verifier::external_body] fn fill_bytes(&mut self, dest: &mut [u8]) { unimplemented!() } }', d, expect=1)
+                 'impl Random for RingRng { #[verifier::external_body] fn fill_bytes(&mut self, dest: &mut [u8]) { unimplemented!() } #[verifier::external_body] fn try_fill_bytes(&mut self, dest: &mut [u8]) -> Result<(), crate::wshim::RandError> { unimplemented!() } }', d, expect=1)
         # the rand_core glue (RngCore / CryptoRng for RingRng) is not verified
         d = _sub(ex, 'R12r', r'(?ms)^impl rand_core::RngCore for RingRng \{.*?^\}\n', '', d, expect=1)
         d = _sub(ex, 'R12r', r'(?m)^impl rand_core::CryptoRng for RingRng \{\}', '', d, expect=1)
@@ -318,7 +320,7 @@ def extract_wrappers(repo, root, which='default'):
                 n23 += 1
         ex.counts['R23'] = n23
         d = _sub(ex, 'R5w', r'impl Random for OsRng \{\}',
-                 'impl Random for OsRng { #[verifier::external_body] fn fill_bytes(&mut self, dest: &mut [u8]) { unimplemented!() } }', d, expect=1)
+                 'impl Random for OsRng { #[verifier::external_body] fn fill_bytes(&mut self, dest: &mut [u8]) { unimplemented!() } #[verifier::external_body] fn try_fill_bytes(&mut self, dest: &mut [u8]) -> Result<(), crate::wshim::RandError> { unimplemented!() } }', d, expect=1)
         d = _pub_fields(ex, d)
         body = r + '\npub mod default {\n//@@SRC resolvers/default.rs\nuse vstd::prelude::*;\nverus! {\n%s\n} // verus!\n}\n' % d
     out.append('pub mod resolvers {\n//@@SRC resolvers/mod.rs\nuse vstd::prelude::*;\nverus! {\n%s\n} // verus!\n}\n' % body)
